@@ -99,15 +99,15 @@ pub fn weights(p: Prop) -> [u8; NOPS] {
     //                 ins kv  chk get gmu gkv con idx imu rem ren ret clr drn wlk cns ent cln unc dis dsw ovf fmt eq  cap fri
     match p {
         Prop::C01 => [12, 6, 6, 3, 3, 2, 2, 2, 2, 9, 5, 4, 1, 2, 1, 0, 0, 1, 0, 0, 0, 0, 0, 0, 0, 0],
-        Prop::C02 => [10, 5, 5, 1, 1, 1, 0, 0, 1, 6, 4, 3, 1, 6, 1, 8, 4, 4, 0, 1, 0, 0, 0, 0, 0, 3],
+        Prop::C02 => [10, 5, 5, 1, 1, 1, 0, 0, 1, 6, 4, 3, 1, 6, 1, 8, 4, 4, 4, 1, 0, 0, 0, 0, 0, 3],
         Prop::C03 => [14, 4, 4, 0, 0, 0, 0, 0, 0, 5, 2, 2, 0, 1, 0, 0, 2, 0, 0, 0, 0, 12, 0, 0, 2, 3],
-        Prop::C04 => [10, 4, 4, 1, 1, 1, 1, 1, 1, 5, 3, 5, 3, 4, 1, 4, 6, 6, 0, 2, 0, 0, 0, 2, 0, 4],
-        Prop::C05 => [10, 5, 5, 1, 2, 0, 0, 2, 2, 6, 4, 4, 1, 2, 3, 1, 8, 2, 0, 3, 0, 0, 0, 0, 1, 0],
+        Prop::C04 => [10, 4, 4, 1, 1, 1, 1, 1, 1, 5, 3, 5, 3, 4, 1, 4, 6, 6, 3, 2, 0, 0, 0, 2, 0, 4],
+        Prop::C05 => [10, 5, 5, 1, 2, 0, 0, 2, 2, 6, 4, 4, 1, 2, 3, 1, 8, 2, 3, 3, 0, 0, 0, 0, 1, 0],
         Prop::C06 => [10, 4, 4, 3, 3, 3, 2, 1, 1, 5, 3, 3, 1, 3, 6, 3, 6, 3, 0, 3, 0, 0, 4, 3, 1, 3],
         Prop::C09 => [12, 3, 3, 1, 1, 0, 0, 0, 0, 9, 4, 3, 0, 1, 16, 0, 2, 1, 0, 0, 0, 0, 0, 0, 0, 0],
         Prop::C10 => [14, 3, 3, 1, 0, 0, 0, 0, 0, 7, 3, 2, 0, 9, 1, 9, 1, 2, 0, 0, 0, 0, 0, 0, 0, 0],
         Prop::C11 => [10, 3, 3, 1, 0, 0, 0, 0, 0, 7, 3, 2, 0, 1, 0, 0, 24, 1, 0, 0, 0, 0, 0, 0, 0, 0],
-        Prop::C12 => [14, 10, 10, 1, 0, 3, 0, 0, 0, 5, 4, 1, 0, 1, 3, 3, 10, 1, 0, 0, 0, 0, 0, 0, 0, 4],
+        Prop::C12 => [14, 10, 10, 1, 0, 3, 0, 0, 0, 5, 4, 1, 0, 1, 3, 3, 10, 1, 6, 0, 0, 0, 0, 0, 0, 4],
         Prop::C13 => [12, 3, 3, 0, 1, 0, 0, 0, 0, 7, 3, 2, 0, 0, 0, 0, 1, 0, 0, 16, 3, 0, 0, 0, 0, 0],
         Prop::C15 => [10, 4, 3, 2, 2, 1, 0, 0, 1, 6, 3, 3, 1, 2, 1, 2, 3, 12, 0, 0, 0, 0, 0, 3, 0, 0],
         Prop::C16 => [6, 2, 2, 1, 0, 1, 0, 0, 0, 3, 1, 1, 0, 0, 0, 0, 0, 0, 0, 0, 0, 0, 0, 0, 0, 22],
